@@ -354,6 +354,12 @@ func oracle(t []string, out string) *hx.Violation {
 	if change < 0 {
 		return &hx.Violation{Kind: kind("negative-change"), Detail: "remainder carried forward is negative"}
 	}
+	// Above 2^53 sela (90 million ELA in one round, more than the supply) float64(reward) is no
+	// longer exact and the shares can exceed the reward by rounding; the two sum rules are judged
+	// on the domain where the float inputs are exact integers.
+	if p.reward >= 1<<53 {
+		return nil
+	}
 	if paid.Cmp(big.NewInt(int64(p.reward))) > 0 {
 		return &hx.Violation{Kind: kind("overpaid"), Detail: fmt.Sprintf("payouts %s exceed the reward %d", paid, int64(p.reward))}
 	}
